@@ -28,3 +28,10 @@ static void vw_dict_alloc(void)
     __CPROVER_assume(V_NODE.Dict.Max >= G_DNUM);
     __CPROVER_assume(G_DROOT[G_DNUM].Key == 0);
 }
+uint32_t G_TX_N; CO_IF_FRM G_TX_LAST; uint32_t G_TXK; CO_IF_FRM G_TX_K; uint32_t G_RECV_N;
+uint32_t G_MODECHG_N; CO_MODE G_MODECHG_LAST; uint32_t G_RESETREQ_N; uint32_t G_CANCTL_N;
+uint32_t G_LSS_STORE_N; uint32_t G_LSS_STORE_BAUD; uint8_t G_LSS_STORE_ID;
+uint32_t G_TMR_STATE, G_TMR_CREATE_N, G_TMR_DELETE_N; int16_t G_TMR_LAST_ID; uint32_t G_TMR_LAST_START, G_TMR_LAST_CYCLE;
+CO_TMR_FUNC G_TMR_LAST_FUNC; void *G_TMR_LAST_PARA; int16_t G_TMR_LAST_DEL; int16_t G_TMR_WATCH; uint32_t G_TMR_WATCH_DEL_N;
+uint32_t G_PDOINIT_N;
+uint32_t G_DV_KEY[4]; _Bool G_DV_OK[4]; uint32_t G_DV_VAL[4];
